@@ -23,7 +23,7 @@
 (* Deviations names deliberately wrong variants (a reset that is missing,  *)
 (* a scope that is not popped) to show the invariants are not vacuous.     *)
 (***************************************************************************)
-EXTENDS Integers, Sequences, FiniteSets, TLC
+EXTENDS Integers, Sequences, FiniteSets
 
 CONSTANTS Defs, Deps, NeedTva, NeedFwd, IsType, Locals, MaxFiles, Deviations, Limit
 
@@ -31,8 +31,7 @@ VARIABLES scope, tva, fwd, tmpId, depth, file, hist, emitted, failed
 
 vars == <<scope, tva, fwd, tmpId, depth, file, hist, emitted, failed>>
 
-RECURSIVE Reach(_)
-Reach(d) == {d} \cup UNION {Reach(e) : e \in Deps[d]}
+\* (the definitions reachable from d through Deps are what "d and the declarations it refers to" means; not needed by the actions)
 
 Init ==
   /\ scope = [n \in {} |-> <<>>] /\ tva = 0 /\ fwd = 0 /\ tmpId = 0 /\ depth = 1 /\ file = 1
